@@ -232,17 +232,17 @@ theorem inlNodes_cnt (tbl : List Func) (crit : OpId → Bool) (deeper : Deeper) 
     · next f hf =>
       dsimp only at h
       have h1 := (hd (st.addInlined op (instantiate f attrs (substIns σ ins) st.next).next
-        (instantiate f attrs (substIns σ ins) st.next).bad) (instantiate f attrs (substIns σ ins) st.next).nodes).count
+        ((instantiate f attrs (substIns σ ins) st.next).bad || nouts.length != f.outputs.length)) (instantiate f attrs (substIns σ ins) st.next).nodes).count
       have h2 := (inlNodes_le tbl crit deeper hd ns
         (deeper (st.addInlined op (instantiate f attrs (substIns σ ins) st.next).next
-          (instantiate f attrs (substIns σ ins) st.next).bad) (instantiate f attrs (substIns σ ins) st.next).nodes).1
+          ((instantiate f attrs (substIns σ ins) st.next).bad || nouts.length != f.outputs.length)) (instantiate f attrs (substIns σ ins) st.next).nodes).1
         (nouts.zip ((instantiate f attrs (substIns σ ins) st.next).outvals.map
           (deeper (st.addInlined op (instantiate f attrs (substIns σ ins) st.next).next
-            (instantiate f attrs (substIns σ ins) st.next).bad)
+            ((instantiate f attrs (substIns σ ins) st.next).bad || nouts.length != f.outputs.length))
             (instantiate f attrs (substIns σ ins) st.next).nodes).2.2.app) ++ σ)
         (outs.map (fun o => ((nouts.zip ((instantiate f attrs (substIns σ ins) st.next).outvals.map
           (deeper (st.addInlined op (instantiate f attrs (substIns σ ins) st.next).next
-            (instantiate f attrs (substIns σ ins) st.next).bad)
+            ((instantiate f attrs (substIns σ ins) st.next).bad || nouts.length != f.outputs.length))
             (instantiate f attrs (substIns σ ins) st.next).nodes).2.2.app)).lookup o).getD o))).count
       rw [addInlined_count] at h1
       omega
